@@ -27,6 +27,7 @@ type backend struct {
 	panics      int         // panics injected so far
 	errKinds    bool        // draw error *values* of many kinds (linux / syscall errno, os.Err*, wrapped, opaque)
 	dirRoot     bool        // the root is always a directory
+	panicRenH   int         // Renamed panics when called on this handle (once)
 	noENOSYS    bool        // WalkGetAttr is always implemented
 	bigXattr    int         // GetXattr returns this many bytes (reads on xattr fids near msize)
 	attrByH     bool        // GetAttr answers a fixed function of the handle (content checks under concurrency)
@@ -458,7 +459,15 @@ func (f *sfile) Renamed(newDir p9.File, newName string) {
 	b.multis = append(b.multis, fmt.Sprintf("renamed=%d:%d:%s", f.id, newDir.(*sfile).id, hx([]byte(newName))))
 	f.path = append(append([]string{}, newDir.(*sfile).path...), newName)
 	gate := b.gate
+	boom := b.panicRenH != 0 && b.panicRenH == f.id
+	if boom {
+		b.panicRenH = 0
+		b.panics++
+	}
 	b.mu.Unlock()
+	if boom {
+		panic(fmt.Sprintf("injected panic in Renamed(h%d)", f.id))
+	}
 	if gate != nil {
 		gate(f.id, "Renamed")
 	}
